@@ -41,6 +41,7 @@ fn gen_run(rng: &mut Rng, sub: &str, thorough: bool, base: Option<&Params>) -> (
         alpha_w: if sub == "cgr" { [60, 40, 0, 0, 0, 0, 0] } else { [45, 15, 15, 5, 5, 13, 2] },
         min_len: 0,
         dup_pct: 10,
+            tab_desc_pct: 0,
     };
     let records = g.gen(rng);
     let container = gen_container(rng, &records, false, true);
